@@ -336,6 +336,10 @@ func newRuntimeState(compiled config.Compiled) *runtimeState {
 func (s *runtimeState) updateAll(compiled config.Compiled) {
 	s.mu.Lock()
 	defer s.mu.Unlock()
+	s.updateAllLocked(compiled)
+}
+
+func (s *runtimeState) updateAllLocked(compiled config.Compiled) {
 	s.routes = compiled.Routes
 	s.pathToRoute = compiled.PathToRoute
 	s.trendSignals = compiled.Defaults.TrendSignals
@@ -843,12 +847,67 @@ func queueTrendSignalConfigFromCompiled(in config.TrendSignalsConfig) queue.Back
 	}
 }
 
+// runtimeAuth is everything loadAuth derives from a compiled config; it is
+// built without holding the state lock and swapped in under it.
+type runtimeAuth struct {
+	pullAuthorize   pullapi.Authorizer
+	workerAuthorize workerapi.Authorizer
+	adminAuthorize  admin.Authorizer
+	pullByRoute     map[string]pullapi.Authorizer
+	workerByRoute   map[string]workerapi.Authorizer
+	basicByRoute    map[string]*ingress.BasicAuth
+	forwardByRoute  map[string]*ingress.ForwardAuth
+	hmacByRoute     map[string]*ingress.HMACAuth
+}
+
 func (s *runtimeState) loadAuth(compiled config.Compiled) error {
+	auth, err := buildRuntimeAuth(compiled)
+	if err != nil {
+		return err
+	}
+	s.mu.Lock()
+	s.applyAuthLocked(auth)
+	s.mu.Unlock()
+	return nil
+}
+
+// applyReload switches authenticators, routes and limits to compiled in one
+// critical section, so no request observes the new authenticators together
+// with the old route table (or the reverse). On error nothing is changed.
+func (s *runtimeState) applyReload(compiled config.Compiled) error {
+	auth, err := buildRuntimeAuth(compiled)
+	if err != nil {
+		return err
+	}
+	s.mu.Lock()
+	s.applyAuthLocked(auth)
+	s.updateAllLocked(compiled)
+	s.mu.Unlock()
+	return nil
+}
+
+func (s *runtimeState) applyAuthLocked(auth *runtimeAuth) {
+	// Replay protection must survive a reload: carry the nonces already seen
+	// on a route over to its rebuilt authenticator.
+	for route, a := range auth.hmacByRoute {
+		a.InheritReplayState(s.hmacByRoute[route])
+	}
+	s.pullAuthorize = auth.pullAuthorize
+	s.workerAuthorize = auth.workerAuthorize
+	s.adminAuthorize = auth.adminAuthorize
+	s.pullByRoute = auth.pullByRoute
+	s.workerByRoute = auth.workerByRoute
+	s.basicByRoute = auth.basicByRoute
+	s.forwardByRoute = auth.forwardByRoute
+	s.hmacByRoute = auth.hmacByRoute
+}
+
+func buildRuntimeAuth(compiled config.Compiled) (*runtimeAuth, error) {
 	tokens := make([][]byte, 0, len(compiled.PullAPI.AuthTokens))
 	for _, ref := range compiled.PullAPI.AuthTokens {
 		b, err := secrets.LoadRef(ref)
 		if err != nil {
-			return fmt.Errorf("pull_api auth token %q: %w", ref, err)
+			return nil, fmt.Errorf("pull_api auth token %q: %w", ref, err)
 		}
 		tokens = append(tokens, b)
 	}
@@ -857,7 +916,7 @@ func (s *runtimeState) loadAuth(compiled config.Compiled) error {
 	for _, ref := range compiled.AdminAPI.AuthTokens {
 		b, err := secrets.LoadRef(ref)
 		if err != nil {
-			return fmt.Errorf("admin_api auth token %q: %w", ref, err)
+			return nil, fmt.Errorf("admin_api auth token %q: %w", ref, err)
 		}
 		adminTokens = append(adminTokens, b)
 	}
@@ -866,7 +925,7 @@ func (s *runtimeState) loadAuth(compiled config.Compiled) error {
 	for id, sc := range compiled.Secrets {
 		b, err := secrets.LoadRef(sc.ValueRef)
 		if err != nil {
-			return fmt.Errorf("secret %q value %q: %w", id, sc.ValueRef, err)
+			return nil, fmt.Errorf("secret %q value %q: %w", id, sc.ValueRef, err)
 		}
 		secretVersions[id] = secrets.Version{
 			ID:         id,
@@ -886,7 +945,7 @@ func (s *runtimeState) loadAuth(compiled config.Compiled) error {
 		for _, ref := range rt.Pull.AuthTokens {
 			b, err := secrets.LoadRef(ref)
 			if err != nil {
-				return fmt.Errorf("route %q pull auth token %q: %w", rt.Path, ref, err)
+				return nil, fmt.Errorf("route %q pull auth token %q: %w", rt.Path, ref, err)
 			}
 			routeTokens = append(routeTokens, b)
 		}
@@ -927,7 +986,7 @@ func (s *runtimeState) loadAuth(compiled config.Compiled) error {
 		for _, ref := range rt.AuthHMACSecrets {
 			b, err := secrets.LoadRef(ref)
 			if err != nil {
-				return fmt.Errorf("route %q auth hmac secret %q: %w", rt.Path, ref, err)
+				return nil, fmt.Errorf("route %q auth hmac secret %q: %w", rt.Path, ref, err)
 			}
 			secs = append(secs, b)
 		}
@@ -941,7 +1000,7 @@ func (s *runtimeState) loadAuth(compiled config.Compiled) error {
 			seenRefs[ref] = struct{}{}
 			v, ok := secretVersions[ref]
 			if !ok {
-				return fmt.Errorf("route %q auth hmac secret_ref %q not found", rt.Path, ref)
+				return nil, fmt.Errorf("route %q auth hmac secret_ref %q not found", rt.Path, ref)
 			}
 			versions = append(versions, v)
 		}
@@ -962,7 +1021,7 @@ func (s *runtimeState) loadAuth(compiled config.Compiled) error {
 		if len(versions) > 0 {
 			set := secrets.Set{Versions: versions}
 			if err := set.Validate(); err != nil {
-				return fmt.Errorf("route %q auth hmac secret_ref invalid: %w", rt.Path, err)
+				return nil, fmt.Errorf("route %q auth hmac secret_ref invalid: %w", rt.Path, err)
 			}
 			auth.SelectSecrets = func(at time.Time) [][]byte {
 				valid := set.ValidAt(at)
@@ -979,22 +1038,16 @@ func (s *runtimeState) loadAuth(compiled config.Compiled) error {
 		hmacByRoute[rt.Path] = auth
 	}
 
-	s.mu.Lock()
-	// Replay protection must survive a reload: carry the nonces already seen
-	// on a route over to its rebuilt authenticator.
-	for route, auth := range hmacByRoute {
-		auth.InheritReplayState(s.hmacByRoute[route])
-	}
-	s.pullAuthorize = pullapi.BearerTokenAuthorizer(tokens)
-	s.workerAuthorize = workerapi.BearerTokenAuthorizer(tokens)
-	s.adminAuthorize = admin.BearerTokenAuthorizer(adminTokens)
-	s.pullByRoute = pullByRoute
-	s.workerByRoute = workerByRoute
-	s.basicByRoute = basicByRoute
-	s.forwardByRoute = forwardByRoute
-	s.hmacByRoute = hmacByRoute
-	s.mu.Unlock()
-	return nil
+	return &runtimeAuth{
+		pullAuthorize:   pullapi.BearerTokenAuthorizer(tokens),
+		workerAuthorize: workerapi.BearerTokenAuthorizer(tokens),
+		adminAuthorize:  admin.BearerTokenAuthorizer(adminTokens),
+		pullByRoute:     pullByRoute,
+		workerByRoute:   workerByRoute,
+		basicByRoute:    basicByRoute,
+		forwardByRoute:  forwardByRoute,
+		hmacByRoute:     hmacByRoute,
+	}, nil
 }
 
 func startBacklogTrendCapture(ctx context.Context, trendStore queue.BacklogTrendStore, logger *slog.Logger) {
@@ -1124,11 +1177,10 @@ func reloadConfig(path string, running config.Compiled, state *runtimeState, log
 		return running, false
 	}
 
-	if err := state.loadAuth(compiled); err != nil {
+	if err := state.applyReload(compiled); err != nil {
 		logger.Error("config_reload_failed", slog.Any("err", err), slog.String("trigger", trigger))
 		return running, false
 	}
-	state.updateAll(compiled)
 
 	logger.Info("config_reloaded_ok", slog.String("trigger", trigger))
 	return compiled, true
